@@ -243,32 +243,46 @@ def Huffman.construct (h : Huffman) (lengths : Array Nat) : Except Err (Huffman 
 def setB (a : Bytes) (i : Nat) (v : UInt8) : Except Err Bytes :=
   if i < a.size then .ok (a.setIfInBounds i v) else .error .panic
 
-/-- `func cutSingleBlock(encoded []byte, maxEncodedLen int) (encodedLen, decodedLen int, retErr error)`.
-`io.ReadFull(flate.NewReader(…), buf)` is `Spec.inflateRaw … n`: a short read is accepted when
-the stream was merely truncated, and is an error when it was corrupt. -/
+/-- The 5 header bytes of a final stored block with `n` literal bytes
+(`encoded[0] = 0x01; encoded[1] = uint8(n); encoded[2] = uint8(n >> 8); encoded[3] = ^encoded[1]; …`). -/
+def storedHeader (n : Nat) : Bytes :=
+  #[0x01, UInt8.ofNat (n % 256), UInt8.ofNat (n / 256 % 256),
+    UInt8.ofNat (255 - n % 256), UInt8.ofNat (255 - n / 256 % 256)]
+
+/-- `encoded[0..4] = header; copy(encoded[5:], buf[:n])` (`copy` copies as much as fits). -/
+def writeStored (encoded buf : Bytes) (n : Nat) : Bytes :=
+  let k := if encoded.size - 5 < n then encoded.size - 5 else n
+  storedHeader n ++ buf.extract 0 k ++ encoded.extract (5 + k) encoded.size
+
+/-- `n := maxEncodedLen - 5; if n > 0xFFFF { n = 0xFFFF }` -/
+def singleStoredLen (maxEncodedLen : Nat) : Nat :=
+  if maxEncodedLen - 5 > 0xFFFF then 0xFFFF else maxEncodedLen - 5
+
+/-- The "try re-encoding as a single Stored block" part of `cutSingleBlock`: `some` result when it
+applies.  `io.ReadFull(flate.NewReader(…), buf)` is `Spec.inflateRaw … (some want)`: a short read is
+accepted when the stream merely ended early, and is an error when it was corrupt. -/
+def cutSingleBlockStored (encoded : Bytes) (maxEncodedLen : Nat) : Except Err (Option (Bytes × Nat × Nat)) :=
+  if maxEncodedLen > 5 then
+    let want := singleStoredLen maxEncodedLen
+    let r := Spec.inflateRaw #[] encoded (some want)
+    if r.out.size < want ∧ r.status = .corrupt then .error .flateCorrupt
+    else
+      let n := if r.out.size < want then r.out.size else want
+      if n > 0 then
+        if encoded.size < 5 then .error .panic
+        else .ok (some (writeStored encoded r.out n, n + 5, n))
+      else .ok none
+  else .ok none
+
+/-- `func cutSingleBlock(encoded []byte, maxEncodedLen int) (encodedLen, decodedLen int, retErr error)` -/
 def cutSingleBlock (encoded : Bytes) (maxEncodedLen : Nat) : Except Err (Bytes × Nat × Nat) :=
   if maxEncodedLen < smallestValidMaxEncodedLen then .error .panic
   else
-    let stored : Except Err (Option (Bytes × Nat × Nat)) :=
-      if maxEncodedLen > 5 then
-        let n := if maxEncodedLen - 5 > 0xFFFF then 0xFFFF else maxEncodedLen - 5
-        let r := Spec.inflateRaw #[] encoded (some n)
-        if r.out.size < n ∧ r.status = .corrupt then .error .flateCorrupt
-        else
-          let n := if r.out.size < n then r.out.size else n
-          if n > 0 then
-            if encoded.size < 5 then .error .panic
-            else
-              let k := if encoded.size - 5 < n then encoded.size - 5 else n
-              let hdr : Bytes := #[0x01, UInt8.ofNat (n % 256), UInt8.ofNat (n / 256 % 256),
-                                   UInt8.ofNat (255 - n % 256), UInt8.ofNat (255 - n / 256 % 256)]
-              .ok (some (hdr ++ r.out.extract 0 k ++ encoded.extract (5 + k) encoded.size, n + 5, n))
-          else .ok none
-      else .ok none
-    match stored with
+    match cutSingleBlockStored encoded maxEncodedLen with
     | .error e => .error e
     | .ok (some r) => .ok r
     | .ok none =>
+      -- encoded[0] = 0x03; encoded[1] = 0x00: an empty static-Huffman final block
       match setB encoded 0 0x03 with
       | .error e => .error e
       | .ok e1 =>
